@@ -169,14 +169,17 @@ func (s *Server) Start(c channel.Channel) *Server {
 //	    * deliver     -- send responses to the client
 func (s *Server) serve() {
 	for {
+		verifPoint("srv.serve.loop")
 		next, err := s.nextRequest()
 		if err != nil {
 			s.log("Error reading from client: %v", err)
 			return
 		}
+		verifPoint("srv.serve.beforeSpawn")
 		s.wg.Add(1)
 		go func() {
 			defer s.wg.Done()
+			verifPoint("srv.batch.start")
 			next()
 		}()
 	}
@@ -196,11 +199,14 @@ func (s *Server) signal() {
 //
 // The caller must invoke the returned function to complete the request.
 func (s *Server) nextRequest() (func() error, error) {
+	verifPoint("srv.next.beforeLock")
 	s.mu.Lock()
 	defer s.mu.Unlock()
 	for s.ch != nil && s.inq.IsEmpty() {
 		s.mu.Unlock()
+		verifPoint("srv.next.beforeWait")
 		<-s.work
+		verifPoint("srv.next.afterWait")
 		s.mu.Lock()
 	}
 	if s.ch == nil && s.inq.IsEmpty() {
@@ -225,8 +231,11 @@ func (s *Server) nextRequest() (func() error, error) {
 func (s *Server) waitForBarrier(n int) {
 	s.mu.Unlock()
 	defer s.mu.Lock()
+	verifPoint("srv.barrier.beforeWait")
 	s.nbar.Wait()
+	verifPoint("srv.barrier.afterWait")
 	s.nbar.Add(n)
+	verifPoint("srv.barrier.afterAdd")
 }
 
 // dispatchLocked constructs a function that invokes each of the specified
@@ -255,8 +264,10 @@ func (s *Server) dispatchLocked(next jmessages, ch sender) func() error {
 			}
 
 			todo--
+			verifPoint("srv.dispatch.beforeInvoke")
 			if todo == 0 {
 				t.val, t.err = s.invoke(t.ctx, t.m, t.hreq)
+				verifPoint("srv.task.afterInvoke")
 				if t.hreq.IsNotification() {
 					s.nbar.Done()
 				}
@@ -266,7 +277,9 @@ func (s *Server) dispatchLocked(next jmessages, ch sender) func() error {
 			wg.Add(1)
 			go func() {
 				defer wg.Done()
+				verifPoint("srv.task.start")
 				t.val, t.err = s.invoke(t.ctx, t.m, t.hreq)
+				verifPoint("srv.task.afterInvoke")
 				if t.hreq.IsNotification() {
 					s.nbar.Done()
 				}
@@ -274,7 +287,9 @@ func (s *Server) dispatchLocked(next jmessages, ch sender) func() error {
 		}
 
 		// Wait for all the handlers to return, then deliver any responses.
+		verifPoint("srv.dispatch.beforeWait")
 		wg.Wait()
+		verifPoint("srv.dispatch.afterWait")
 		return s.deliver(tasks.responses(s.rpcLog), ch, time.Since(start))
 	}
 }
@@ -286,6 +301,8 @@ func (s *Server) deliver(rsps jmessages, ch sender, elapsed time.Duration) error
 		return nil
 	}
 	s.log("Completed %d requests [%v elapsed]", len(rsps), elapsed)
+	verifPoint("srv.deliver.beforeLock")
+	defer verifPoint("srv.deliver.afterUnlock")
 	s.mu.Lock()
 	defer s.mu.Unlock()
 
@@ -378,13 +395,16 @@ func (s *Server) setContext(t *task, id string) {
 // the return value into JSON if there is one.
 func (s *Server) invoke(base context.Context, h Handler, req *Request) (json.RawMessage, error) {
 	ctx := context.WithValue(base, serverKey{}, s)
+	verifPoint("srv.invoke.beforeAcquire")
 	if err := s.sem.Acquire(ctx, 1); err != nil {
 		return nil, err
 	}
 	defer s.sem.Release(1)
+	verifPoint("srv.invoke.afterAcquire")
 
 	s.rpcLog.LogRequest(ctx, req)
 	v, err := h(ctx, req)
+	verifPoint("srv.invoke.afterHandler")
 	if err != nil {
 		if req.IsNotification() {
 			s.log("Discarding error from notification to %q: %v", req.Method(), err)
@@ -452,7 +472,9 @@ func (s *Server) Callback(ctx context.Context, method string, params any) (*Resp
 	if err != nil {
 		return nil, err
 	}
+	verifPoint("srv.callback.beforeWait")
 	rsp.wait()
+	verifPoint("srv.callback.afterWait")
 	if err := rsp.Error(); err != nil {
 		return nil, filterError(err)
 	}
@@ -463,6 +485,7 @@ func (s *Server) Callback(ctx context.Context, method string, params any) (*Resp
 // response, deliver an error to the caller.
 func (s *Server) waitCallback(pctx context.Context, id string, p *Response) {
 	<-pctx.Done()
+	verifPoint("srv.waitcb.afterDone")
 	s.mu.Lock()
 	defer s.mu.Unlock()
 	if _, ok := s.call[id]; !ok {
@@ -487,6 +510,7 @@ func (s *Server) pushReq(ctx context.Context, wantID bool, method string, params
 		}
 		bits = v
 	}
+	verifPoint("srv.push.beforeLock")
 	s.mu.Lock()
 	defer s.mu.Unlock()
 	if s.ch == nil {
@@ -528,6 +552,7 @@ func (s *Server) pushReq(ctx context.Context, wantID bool, method string, params
 // is safe to call this method multiple times or from concurrent goroutines; it
 // will only take effect once.
 func (s *Server) Stop() {
+	verifPoint("srv.stop.beforeLock")
 	s.mu.Lock()
 	defer s.mu.Unlock()
 	s.stopLocked(errServerStopped)
@@ -555,6 +580,7 @@ func (s ServerStatus) Success() bool { return s.Err == nil }
 // status. After WaitStatus returns, whether or not there was an error, it is
 // safe to call s.Start again to restart the server with a fresh channel.
 func (s *Server) WaitStatus() ServerStatus {
+	verifPoint("srv.waitstatus.beforeWait")
 	s.wg.Wait()
 	// Postcondition check.
 	if !s.inq.IsEmpty() {
@@ -637,8 +663,10 @@ func (s *Server) read(ch receiver) {
 		// for processing. Errors in individual requests are handled later.
 		var in jmessages
 		var derr error
+		verifPoint("srv.read.beforeRecv")
 		bits, err := ch.Recv()
 		bytesReadCount.Add(int64(len(bits)))
+		verifPoint("srv.read.afterRecv")
 		if err == nil || (err == io.EOF && len(bits) != 0) {
 			err = nil
 			derr = in.parseJSON(bits)
@@ -666,6 +694,7 @@ func (s *Server) read(ch receiver) {
 			}
 		}
 		s.mu.Unlock()
+		verifPoint("srv.read.afterUnlock")
 	}
 }
 
@@ -837,6 +866,7 @@ func (ts tasks) numToDo() (todo, notes int) {
 // CancelRequest instructs s to cancel the pending or in-flight request with
 // the specified ID. If no request exists with that ID, this is a no-op.
 func (s *Server) CancelRequest(id string) {
+	verifPoint("srv.cancel.beforeLock")
 	s.mu.Lock()
 	defer s.mu.Unlock()
 	if s.cancelLocked(id) {
